@@ -92,6 +92,10 @@ FORMS = {
     "itemsets": {"md": MD_ITEMSETS, "expect": "ok"},
     "early": {"md": MD_EARLY, "expect": "early"},
     "late": {"md": MD_LATE, "expect": "late"},
+    # crash points inside print_xform_to_file's write of the temp file (fault injected at the call of `open`)
+    "disk-open": {"md": MD_PLAIN, "fault": "open", "expect": "diskfault"},
+    "disk-write": {"md": MD_ITEMSETS, "fault": "write", "expect": "diskfault"},
+    "disk-vanish": {"md": MD_WARN, "fault": "vanish", "expect": "diskfault"},
     # a lone surrogate in a label: UnicodeEncodeError while writing the temp file (print_xform_to_file's except
     # branch) on trees that let it through, a PyXFormError once characters are validated
     "surrogate": {"dict": DICT_SURROGATE, "expect": ("unencodable", "early", "late"), "lib_only": True},
@@ -110,6 +114,8 @@ def abstract_form(sb, fid):
             k = "late" if a["to_xml_calls"] else "early"
         elif a["raised"] == "UnicodeEncodeError":
             k = "unencodable"
+        elif a["raised"] in ("OSError", "FileNotFoundError") and f.get("fault"):
+            k = "diskfault"
         else:
             raise vcore.Infra(f"baseline conversion of form {fid} raised {a['raised']}: {a['msg']}")
         if k != f["expect"] and k not in f["expect"]:
